@@ -12,6 +12,16 @@ key order: is_black[y][x] row-major (y outer, x inner), bool.
 Cap rule (the puzzle has no clues, an instance is a room partition): all partitions of the board into connected rooms
 of >= 4 cells in canonical order (by number of rooms, then by cells); when there are more than `cap`, every
 ceil(P/cap)-th one.
+
+("large", h, w, level) shapes: larger boards with a small fixed set of room partitions - structured ones (stripes, bands,
+2x2 / 2x3 / 3x3 / 2x4 blocks, a tiling by L-tetrominoes, nested L shapes, halves, the whole board, the 10x10 partition
+published in lits.py tiled over / cropped to the board; rooms of fewer than 4 cells are merged into a neighbour),
+partitions derived from an answer (every tetromino of a rule-obeying grid gets the cells nearest to it, or the tetrominoes
+grow one after the other, so that grid stays an answer), "tight" partitions (bars of cycling lengths laid in a snake over
+the board, the ones with the fewest answers - often exactly one), such partitions with one cell moved to a neighbouring
+room, and on some boards the partitions of a small block (3x3, 2x4, 4x2, 3x4, 4x3) placed in the far corner, the rest
+of the board being one room.
+They are answered by search(), an exact room-by-room search; selftest() compares it with the brute-force product.
 """
 
 import itertools
@@ -20,6 +30,17 @@ from . import base
 from .. import graphref
 
 _PARTS = {}
+_LARGE = {}
+_SOLS = {}
+LIMIT = 400000  # search() refuses to return more answers than this (harness error, never a verdict)
+INST_CAP = 5000  # a partition with more answers than this is not used as a large instance
+NODE_CAP = 60000  # ... nor one whose search tree is larger than this
+EXAMPLE = ["0000000222", "0010002222", "1113332222", "5563444288", "5663422228", "5663223338", "5633333338", "6673339aaa", "6773999aab", "77bbbbbbbb"]
+QUICK = ("bands-2-rows", "blocks-2x3", "nested-l-far", "example-tiled", "halves")
+
+
+class TooMany(RuntimeError):
+    pass
 
 
 def _own_partitions(h, w, min_size):
@@ -114,6 +135,346 @@ def shape_letter(cells):
     }[best]
 
 
+def tetrominoes(room):
+    """All sets of four orthogonally connected cells of the room, grown cell by cell from every cell."""
+    room = set(room)
+    level = set(frozenset([c]) for c in room)
+    for _ in range(3):
+        nxt = set()
+        for s in level:
+            for y, x in s:
+                for c in ((y - 1, x), (y, x - 1), (y, x + 1), (y + 1, x)):
+                    if c in room and c not in s:
+                        nxt.add(s | {c})
+        level = nxt
+    return sorted(tuple(sorted(s)) for s in level)
+
+
+def search(h, w, rooms, limit=LIMIT, max_nodes=0):
+    """All answers (row-major tuples, True = black) for the rooms (lists of (y, x)).
+
+    The rooms are visited in breadth-first order of the room adjacency; each gets one of its tetrominoes.  Cut when a
+    2x2 black square appears, when two edge-adjacent tetrominoes have the same shape, and when some black component
+    can no longer be joined to the rest (it touches no cell of a room that is still empty although other rooms exist
+    outside it).  The final grid is tested for connectivity.  Only placements without a rule-obeying completion are
+    cut, so the enumeration is complete."""
+    rooms = [sorted((y, x) for y, x in r) for r in rooms]
+    nr = len(rooms)
+    room_of = {c: i for i, r in enumerate(rooms) for c in r}
+
+    def nb(c):
+        y, x = c
+        return [d for d in ((y - 1, x), (y, x - 1), (y, x + 1), (y + 1, x)) if d in room_of]
+
+    adj = [set() for _ in range(nr)]
+    for c in room_of:
+        for d in nb(c):
+            if room_of[d] != room_of[c]:
+                adj[room_of[c]].add(room_of[d])
+    order = []
+    seen = set()
+    for s in range(nr):
+        if s in seen:
+            continue
+        seen.add(s)
+        queue = [s]
+        while queue:
+            r = queue.pop(0)
+            order.append(r)
+            for t in sorted(adj[r]):
+                if t not in seen:
+                    seen.add(t)
+                    queue.append(t)
+    cands = [[(t, shape_letter(t)) for t in tetrominoes(r)] for r in rooms]
+    black = {}  # cell -> room whose tetromino covers it
+    letter = [None] * nr
+    out = []
+    nodes = [0]
+
+    def stranded(placed):
+        """A black component that touches no cell of an empty room while it is not the whole picture."""
+        if placed == nr:
+            return not base.cells_connected(black)
+        comps = base.components(black)
+        for comp in comps:
+            if not any(room_of[d] != room_of[c] and letter[room_of[d]] is None for c in comp for d in nb(c)):
+                return True  # it cannot grow, and at least one more tetromino is still to come
+        return False
+
+    def rec(k):
+        if k == nr:
+            if len(out) >= limit:
+                raise TooMany("lits oracle: more than %d answers on %dx%d" % (limit, h, w))
+            out.append(tuple((y, x) in black for y in range(h) for x in range(w)))
+            return
+        r = order[k]
+        for cells, let in cands[r]:
+            nodes[0] += 1
+            if max_nodes and nodes[0] > max_nodes:
+                raise TooMany("lits oracle: search budget exceeded on %dx%d" % (h, w))
+            if let == "O":
+                continue  # a 2x2 black square
+            ok = True
+            for c in cells:
+                for d in nb(c):
+                    if d in black and letter[black[d]] == let:
+                        ok = False
+            if not ok:
+                continue
+            for c in cells:
+                black[c] = r
+            letter[r] = let
+            bad = False
+            for y, x in cells:
+                for y0, x0 in ((y - 1, x - 1), (y - 1, x), (y, x - 1), (y, x)):
+                    if (y0, x0) in black and (y0 + 1, x0) in black and (y0, x0 + 1) in black and (y0 + 1, x0 + 1) in black:
+                        bad = True
+            if not bad and not stranded(k + 1):
+                rec(k + 1)
+            letter[r] = None
+            for c in cells:
+                del black[c]
+
+    rec(0)
+    return out
+
+
+# ---- room partitions of large boards (rooms = sorted lists of (y, x)) -----------------------------------------
+def rooms_from_ids(h, w, f):
+    """Group the cells by f(y, x); a group that is not orthogonally connected is split into its components."""
+    groups = {}
+    for y in range(h):
+        for x in range(w):
+            groups.setdefault(f(y, x), []).append((y, x))
+    rooms = []
+    for g in groups.values():
+        rooms += [sorted(c) for c in base.components(g)]
+    return sorted(rooms)
+
+
+def merge_small(rooms, min_size=4):
+    """Rooms of fewer than min_size cells are merged (smallest first) into their first edge-adjacent room."""
+    rooms = sorted(sorted(r) for r in rooms)
+    while len(rooms) > 1:
+        small = [r for r in rooms if len(r) < min_size]
+        if not small:
+            break
+        r = min(small, key=lambda q: (len(q), q))
+        cells = set(r)
+        for other in rooms:
+            if other is not r and any((y + dy, x + dx) in cells for y, x in other for dy, dx in ((0, 1), (1, 0), (0, -1), (-1, 0))):
+                rooms = sorted([q for q in rooms if q is not r and q is not other] + [sorted(r + other)])
+                break
+    return rooms
+
+
+def structured(h, w):
+    """Named structured partitions of the h x w board into rooms of >= 4 cells (duplicates removed)."""
+
+    def ltile(y, x):  # 2x4 blocks, each cut into two L-tetrominoes
+        return (y // 2, x // 4, (y % 2, x % 4) in ((0, 0), (1, 0), (1, 1), (1, 2)))
+
+    fs = [
+        ("rows", lambda y, x: y), ("columns", lambda y, x: x), ("bands-2-rows", lambda y, x: y // 2), ("bands-2-columns", lambda y, x: x // 2),
+        ("blocks-2x2", lambda y, x: (y // 2, x // 2)), ("blocks-2x3", lambda y, x: (y // 2, x // 3)), ("blocks-3x2", lambda y, x: (y // 3, x // 2)),
+        ("blocks-3x3", lambda y, x: (y // 3, x // 3)), ("blocks-2x4", lambda y, x: (y // 2, x // 4)), ("l-tetrominoes", ltile),
+        ("nested-l", lambda y, x: max(y, x, 2)), ("nested-l-far", lambda y, x: max(h - 1 - y, w - 1 - x, 2)),
+        ("example-tiled", lambda y, x: (y // 10, x // 10, EXAMPLE[y % 10][x % 10])), ("whole", lambda y, x: 0),
+        ("halves", lambda y, x: (2 * y >= h, 2 * x >= w)), ("blocks-3x3-shifted", lambda y, x: ((y + 1) // 3, (x + 2) // 3)),
+        ("example-far", lambda y, x: EXAMPLE[(y + 10 - h) % 10][(x + 10 - w) % 10] if h <= 10 and w <= 10 else 0),
+    ]
+    out = []
+    for name, f in fs:
+        rooms = merge_small(rooms_from_ids(h, w, f))
+        if rooms not in [r for _, r in out]:
+            out.append((name, rooms))
+    return out
+
+
+def snake_bars(h, w, seq, vertical=False, snake=True):
+    """Rooms = bars whose lengths cycle through seq, laid along the rows - continuing backwards in the next row (snake)
+    or cut at the row end - or, with vertical, along the columns."""
+    if vertical:
+        return sorted(sorted((x, y) for y, x in r) for r in snake_bars(w, h, seq, False, snake))
+    ids = {}
+    k, left, rid = 0, seq[0], 0
+    for y in range(h):
+        for x in range(w) if (not snake or y % 2 == 0) else range(w - 1, -1, -1):
+            if left == 0:
+                k += 1
+                left = seq[k % len(seq)]
+                rid += 1
+            ids[(y, x)] = rid
+            left -= 1
+        if not snake:
+            left = 0
+    return merge_small(rooms_from_ids(h, w, lambda y, x: ids[(y, x)]))
+
+
+def tight(h, w, k, sizes=(4, 5, 6, 7, 8), maxlen=3):
+    """The k snake_bars partitions with the fewest (but at least one) answers, over all length sequences of at most
+    maxlen terms: boards with many small rooms, where nearly every rule instance is needed to exclude something."""
+    found = []
+    seen = []
+    for n in range(1, maxlen + 1):
+        for seq in itertools.product(sizes, repeat=n):
+            for vertical in (False, True):
+                for snake in (True, False):
+                    rooms = snake_bars(h, w, seq, vertical, snake)
+                    if rooms in seen:
+                        continue
+                    seen.append(rooms)
+                    try:
+                        sols = search(h, w, rooms, 40, 5000)
+                    except TooMany:
+                        continue
+                    if sols:
+                        found.append((len(sols), len(found), rooms))
+    found.sort()
+    return [rooms for _, _, rooms in found[:k]]
+
+
+def voronoi(h, w, seeds):
+    """One room per seed (a set of cells): breadth-first growth from all seeds at once, a free cell joins the room that
+    reaches it first (seeds in the given order).  Every room is connected and contains its seed."""
+    owner = {}
+    queue = []
+    for k, seed in enumerate(seeds):
+        for c in sorted(seed):
+            owner[c] = k
+            queue.append(c)
+    qi = 0
+    while qi < len(queue):
+        y, x = queue[qi]
+        qi += 1
+        for c in ((y - 1, x), (y, x - 1), (y, x + 1), (y + 1, x)):
+            if 0 <= c[0] < h and 0 <= c[1] < w and c not in owner:
+                owner[c] = owner[(y, x)]
+                queue.append(c)
+    return rooms_from_ids(h, w, lambda y, x: owner[(y, x)])
+
+
+def grown(h, w, seeds):
+    """One room per seed, grown one after the other: the first seed takes every free cell it can reach, then the second
+    one ...  (most rooms stay as small as their seed).  Every room is connected and contains its seed."""
+    owner = {}
+    for k, seed in enumerate(seeds):
+        for c in seed:
+            owner[c] = k
+    for k, seed in enumerate(seeds):
+        queue = sorted(seed)
+        qi = 0
+        while qi < len(queue):
+            y, x = queue[qi]
+            qi += 1
+            for c in ((y - 1, x), (y, x - 1), (y, x + 1), (y + 1, x)):
+                if 0 <= c[0] < h and 0 <= c[1] < w and c not in owner:
+                    owner[c] = k
+                    queue.append(c)
+    return rooms_from_ids(h, w, lambda y, x: owner[(y, x)])
+
+
+def spaced(items, k):
+    """First, last and evenly spaced elements (k in total, fewer when there are fewer items)."""
+    if len(items) <= k:
+        return list(items)
+    if k == 1:
+        return [items[len(items) // 2]]
+    return [items[(len(items) - 1) * j // (k - 1)] for j in range(k)]
+
+
+def moved(h, w, rooms, k, min_size=4):
+    """Up to k partitions obtained by moving one cell into a neighbouring room (the donor stays connected and keeps
+    min_size cells): evenly spaced among all such moves in row-major order."""
+    room_of = {c: i for i, r in enumerate(rooms) for c in r}
+    moves = []
+    for y in range(h):
+        for x in range(w):
+            for c in ((y, x + 1), (y + 1, x), (y, x - 1), (y - 1, x)):
+                if c in room_of and room_of[c] != room_of[(y, x)]:
+                    rest = [d for d in rooms[room_of[(y, x)]] if d != (y, x)]
+                    if len(rest) >= min_size and base.cells_connected(rest):
+                        moves.append(((y, x), room_of[c]))
+    out = []
+    for cell, dst in spaced(moves, k):
+        rs = [[d for d in r if d != cell] for r in rooms]
+        rs[dst] = sorted(rs[dst] + [cell])
+        out.append(sorted(rs))
+    return out
+
+
+def cornered(h, w, bh, bw, part):
+    """The partition part (rooms of (y, x)) of a bh x bw board placed in the far (bottom-right) corner of the h x w
+    board; the rest of the board is one more room (its components, should it fall apart)."""
+    where = {}
+    for k, room in enumerate(part):
+        for y, x in room:
+            where[(y + h - bh, x + w - bw)] = k
+    return merge_small(rooms_from_ids(h, w, lambda y, x: where.get((y, x), -1)))
+
+
+def corner_family(h, w, level):
+    """Every (thorough) / some (quick) partitions (rooms of >= 4 cells) of a small block, in the far corner of the board."""
+    plan = [(3, 3, 4)] if level == 0 else [(3, 3, 17), (2, 4, 5), (4, 2, 5), (3, 4, 20), (4, 3, 20)]
+    out = []
+    for bh, bw, k in plan:
+        if bh < h and bw < w and h * w >= 24:
+            for part in spaced(room_partitions(bh, bw, 4), k):
+                out.append(cornered(h, w, bh, bw, [[tuple(c) for c in b] for b in part]))
+    return out
+
+
+def large_instances(h, w, level):
+    """The fixed instance set of a large board (cached: the driver asks for it once per shard)."""
+    key = (h, w, level)
+    if key in _LARGE:
+        return _LARGE[key]
+    out = []
+
+    def add(rooms):
+        if rooms in out:
+            return None
+        try:
+            sols = search(h, w, rooms, INST_CAP, NODE_CAP)
+        except TooMany:
+            return None
+        _SOLS[repr([[list(c) for c in r] for r in rooms])] = sols
+        out.append(rooms)
+        return sols
+
+    pool = []  # (answer, rooms it belongs to): the grids the derived partitions are built from
+    named = structured(h, w)
+    if level == 0:
+        named = [(nm, r) for nm, r in named if nm in QUICK]
+    if h * w >= 100:
+        named = [(nm, r) for nm, r in named if nm == "example-tiled"]  # anything looser is far too slow to enumerate
+    for name, rooms in named:
+        sols = add(rooms)
+        if sols:
+            pool += [(g, rooms) for g in spaced(sols, 3)]
+    grids = []
+    for g, rooms in pool:
+        if g not in [q for q, _ in grids]:
+            grids.append((g, rooms))
+    derived = []
+    for g, rooms in spaced(grids, 1 if level == 0 else 6):
+        seeds = sorted(sorted(c for c in r if g[c[0] * w + c[1]]) for r in rooms)  # the tetrominoes of the answer
+        for part in (voronoi(h, w, seeds), grown(h, w, seeds), grown(h, w, seeds[::-1]))[: 2 if level == 0 else 3]:
+            if add(part) is not None:
+                derived.append(part)
+    tights = [] if h * w >= 100 else tight(h, w, 2 if level == 0 else 8, maxlen=2 if level == 0 else 3)
+    for rooms in tights:
+        add(rooms)
+    for rooms in tights + derived[: 1 if level == 0 else 6] + [r for nm, r in named if nm in ("example-tiled", "blocks-2x3", "halves")][: 0 if level == 0 else 3]:
+        for m in moved(h, w, rooms, 1 if level == 0 else 4):
+            add(m)
+    if (h, w) in ((6, 6),) or (level > 0 and (h, w) in ((4, 6), (6, 4))):
+        for rooms in corner_family(h, w, level):
+            add(rooms)
+    _LARGE[key] = [{"height": h, "width": w, "blocks": [[list(c) for c in r] for r in rooms]} for rooms in out]
+    return _LARGE[key]
+
+
 class Lits(base.Rule):
     name = "lits"
 
@@ -121,9 +482,16 @@ class Lits(base.Rule):
         s = [(1, 4), (4, 1), (2, 2), (1, 5), (5, 1), (2, 3), (3, 2), (2, 4), (4, 2), (3, 3), (3, 4), (4, 3)]
         if tier != "quick":
             s += [(1, 8), (8, 1), (1, 9), (9, 1), (2, 5), (5, 2), (2, 6), (6, 2), (3, 5), (5, 3), (4, 4)]
-        return s
+        big = [(6, 6), (4, 6), (6, 4), (1, 12), (12, 1), (2, 10), (10, 2)]
+        if tier != "quick":
+            big = [(4, 4), (5, 5)] + big + [(10, 10), (4, 5), (5, 4), (5, 6), (6, 5), (7, 7), (8, 8), (3, 8), (8, 3), (1, 16), (16, 1), (2, 12), (12, 2), (5, 8), (8, 5)]
+        return s + [("large", h, w, 0 if tier == "quick" else 1) for h, w in big]
 
     def instances(self, shape, cap):
+        if shape[0] == "large":
+            for p in large_instances(shape[1], shape[2], shape[3]):
+                yield p
+            return
         h, w = shape
         for blocks in capped(room_partitions(h, w, 4), cap):
             yield {"height": h, "width": w, "blocks": blocks}
@@ -139,6 +507,13 @@ class Lits(base.Rule):
     def readings(self, p):
         h, w = p["height"], p["width"]
         rooms = [[(y, x) for y, x in b] for b in p["blocks"]]
+        if h * w > 16:
+            key = repr(p["blocks"])  # answers computed while the instance set was built (same function)
+            return [_SOLS[key] if key in _SOLS else search(h, w, rooms)]
+        return [self.product(h, w, rooms)]
+
+    def product(self, h, w, rooms):
+        """The small-board oracle: every choice of one connected four-cell set per room, tested against the rules."""
         room_of = {}
         for i, b in enumerate(rooms):
             for c in b:
@@ -173,10 +548,10 @@ class Lits(base.Rule):
                     break
             if ok:
                 out.append(tuple((y, x) in black for y in range(h) for x in range(w)))
-        return [out]
+        return out
 
     def example(self):
-        b = ["0000000222", "0010002222", "1113332222", "5563444288", "5663422228", "5663223338", "5633333338", "6673339aaa", "6773999aab", "77bbbbbbbb"]
+        b = EXAMPLE
         rooms = {}
         for y in range(10):
             for x in range(10):
@@ -192,6 +567,28 @@ def selftest():
             assert own == ref, (h, w, m)
     assert shape_letter([(0, 0), (1, 0), (1, 1), (2, 1)]) == "S" and shape_letter([(0, 1), (1, 1), (2, 1), (2, 0)]) == "L"
     assert shape_letter([(0, 1), (1, 0), (1, 1), (1, 2)]) == "T" and shape_letter([(0, 0), (1, 0), (2, 0), (3, 0)]) == "I"
+    # search() against the brute-force product: every partition of the small boards, structured / derived / moved ones
+    # of the medium boards
+    for h, w in ((1, 4), (2, 2), (1, 5), (2, 3), (3, 2), (2, 4), (4, 2), (3, 3), (3, 4), (4, 3), (1, 9), (2, 5), (5, 2)):
+        for rooms in room_partitions(h, w, 4):
+            rs = [[tuple(c) for c in r] for r in rooms]
+            assert sorted(search(h, w, rs)) == sorted(RULE.product(h, w, rs)), (h, w, rooms)
+    for h, w in ((4, 4), (3, 6), (6, 3), (4, 5), (5, 4), (2, 8), (8, 2), (5, 5)):
+        parts = [r for _, r in structured(h, w)]
+        for r in parts[:8]:
+            parts += moved(h, w, r, 2)
+        for rooms in parts:
+            assert sorted(c for r in rooms for c in r) == [(y, x) for y in range(h) for x in range(w)]
+            assert all(base.cells_connected(r) and (len(r) >= 4 or len(rooms) == 1) for r in rooms)
+            got = search(h, w, rooms)
+            assert sorted(got) == sorted(RULE.product(h, w, rooms)), (h, w, rooms)
+            for g in got[:2]:  # a partition derived from an answer keeps that answer
+                seeds = sorted(sorted(c for c in r if g[c[0] * w + c[1]]) for r in rooms)
+                for v in (voronoi(h, w, seeds), grown(h, w, seeds)):
+                    assert all(base.cells_connected(r) for r in v) and g in search(h, w, v)
+    assert sorted(tetrominoes([(y, x) for y in range(3) for x in range(3)])) == sorted(
+        tuple(sorted(f)) for f in itertools.combinations([(y, x) for y in range(3) for x in range(3)], 4) if base.cells_connected(f)
+    )
 
 
 RULE = Lits()
